@@ -5,8 +5,8 @@
 import os, sys
 sys.path.insert(0, os.path.join(os.environ.get("AIOFTP_REPO", "/repo"), "src"))
 OBLIGATION = 'aioftp.server:Server.rnto#SEQ::Server.rnto/raises:rename-consumed-once-the-backend-was-asked'
-MODEL = {}
-SOLVER_NOTE = 'cvc5=unknown z3=unknown counter-model of the cone-of-influence slice (0 of 78 assumptions)'
+MODEL = {'rest!28': '/', 'real!127': 'OPath!val!3', 'u_cur_home!117': 'Empty(Seq(String))', 'restart_offset!10': 0, 'virtual!128': 'Empty(Seq(String))', 'block_size!0': 1, 'cwd!118': 'Unit("!2!")', 'wait_future_timeout!41': '0/1', 'virtual!121': 'Empty(Seq(String))', 'real!120': 'OPath!val!0', 'u_cur_base!116': 'OPath!val!1', 'real!123': 'OPath!val!2', 'virtual!124': 'Empty(Seq(String))', 'user_present!11': True, 'fsbool!35': False, 'rename_from_done!18': True, 'user_done!12': True, 'current_directory_present!15': True, 'current_directory_done!16': True, 'logged_present!13': True, 'rename_from_present!17': True, 'logged_done!14': True, 'writable!37': True, 'auth_ok!27': True}
+SOLVER_NOTE = 'cvc5=unknown z3=unknown counter-model of the path condition with its bounded-index universals instantiated for lengths <= 2 (implies the original condition)'
 
 print("obligation", OBLIGATION, "failed; no concrete failing input could be constructed automatically")
 print("counter-model (may be spurious where string builtins are uninterpreted):")
